@@ -432,3 +432,22 @@ def _sym_rjust(self, width, fillbyte=b" "):
 
 bl.BytesLike.ljust = _sym_ljust
 bl.BytesLike.rjust = _sym_rjust
+
+
+# ----------------------------------------------------------------------------------------
+# symbolic_bytes + <user object defining __radd__> must give the reflected method a chance
+# (CrossHair raises TypeError instead of returning NotImplemented; real bytes return NotImplemented)
+# ----------------------------------------------------------------------------------------
+_orig_symbytes_add = bl.SymbolicBytes.__add__
+
+
+def _symbytes_add(self, other):
+    with NoTracing():
+        foreign = (not isinstance(other, (bytes, bytearray, memoryview, bl.CrossHairValue))
+                   and hasattr(type(other), "__radd__") and not isinstance(other, (list, tuple, int, str)))
+    if foreign:
+        return NotImplemented
+    return _orig_symbytes_add(self, other)
+
+
+bl.SymbolicBytes.__add__ = _symbytes_add
